@@ -26,6 +26,8 @@ pub struct LocalSpanStack {
 impl LocalSpanStack {
     #[inline]
     pub fn with_capacity(capacity: usize) -> Self {
+        #[cfg(all(fastrace_verif, not(test)))]
+        let capacity = crate::verif::stack_capacity(capacity);
         Self {
             span_lines: Vec::with_capacity(capacity / 8),
             capacity,
